@@ -560,7 +560,16 @@ fn speak(mathml: Element, nav_node_id: String, full_read: bool) -> Result<String
                 },
             }
         }
-        return crate::speech::speak_mathml(mathml, &nav_node_id);
+        return match crate::speech::speak_mathml(mathml, &nav_node_id) {
+            Err(e) if e.to_string() == crate::speech::NAV_NODE_SPEECH_NOT_FOUND => {
+                // a rule can speak a node without descending to the nav node (e.g., 'log' in 'log x'): speak the nav node by itself
+                match get_node_by_id(mathml, &nav_node_id) {
+                    Some(nav_node) => crate::speech::speak_mathml(nav_node, "").or(Err(e)),
+                    None => Err(e),
+                }
+            },
+            result => result,
+        };
     } else {
         return crate::speech::overview_mathml(mathml, &nav_node_id);
     }
